@@ -1131,6 +1131,12 @@ class ModelBuilder:
             for prec_item in precedes_list:
                 # prec_item can be a dict with 'ref' key or a string
                 prec_ref = prec_item.get("ref", "") if isinstance(prec_item, dict) else prec_item
+                # Options given on the precedes entry belong to the dependency it creates
+                options: dict[str, Any] = {}
+                if isinstance(prec_item, dict):
+                    for opt in ("gapduration", "gaplength", "maxgapduration", "onstart", "onend"):
+                        if prec_item.get(opt):
+                            options[opt] = prec_item.get(opt)
 
                 target_task = self._resolve_task_reference(project, source_task, prec_ref)
                 if target_task:
@@ -1149,7 +1155,18 @@ class ModelBuilder:
                         if not already_exists:
                             # The list attribute appends on assignment: hand over only the
                             # new entry (re-assigning the whole list duplicated every entry).
-                            target_task[("depends", scIdx)] = [source_task]
+                            if options:
+                                new_dep: Any = {
+                                    "task": source_task,
+                                    "gapduration": options.get("gapduration"),
+                                    "gaplength": options.get("gaplength"),
+                                    "maxgapduration": options.get("maxgapduration"),
+                                    "onstart": options.get("onstart", False),
+                                    "onend": options.get("onend", False),
+                                }
+                            else:
+                                new_dep = source_task
+                            target_task[("depends", scIdx)] = [new_dep]
 
     def _resolve_task_reference(self, project: Project, from_task: Task, ref: str) -> Optional[Task]:
         """Resolve a task reference string to a Task object.
